@@ -37,16 +37,51 @@ def forward(sc, fc, omega, t, p):
     CI = np.array([[1, 0, 0], [0, np.cos(c), -np.sin(c)], [0, np.sin(c), np.cos(c)]])
     oms = np.radians(np.asarray(omega, float) * p["omegasign"])
     n = len(oms)
-    g = np.zeros((n, 3))
     tt = np.asarray(t, float)
     WC = WI @ CI
-    for i in range(n):
-        Om = rz(oms[i])
-        o = WC @ (Om @ tt)
-        d = xyz[:, i] - o
-        k = (d / np.linalg.norm(d) - np.array([1.0, 0, 0])) / p["wavelength"]
-        g[i] = Om.T @ (WC.T @ k)
-    return g
+    # Om[i] = rz(oms[i]) for every peak at once (the per-peak loop of the first version, vectorised)
+    co, so = np.cos(oms), np.sin(oms)
+    Om = np.zeros((n, 3, 3))
+    Om[:, 0, 0], Om[:, 0, 1], Om[:, 1, 0], Om[:, 1, 1], Om[:, 2, 2] = co, -so, so, co, 1.0
+    o = (Om @ tt) @ WC.T                       # origin of the grain in the lab frame, per peak
+    d = xyz.T - o
+    k = (d / np.linalg.norm(d, axis=1)[:, None] - np.array([1.0, 0, 0])) / p["wavelength"]
+    return np.einsum("nji,nj->ni", Om, k @ WC)          # Om^T (WC^T k)
+
+
+def hkl_errors(sc, fc, omega, ubi, t, p):
+    """squared hkl error |ubi.g - round(ubi.g)|^2 of every peak for a grain (ubi, t): g from forward(), i.e.
+    independent of cImageD11.compute_gv / score_and_assign"""
+    h = forward(sc, fc, omega, t, p) @ np.asarray(ubi, float).T
+    d = h - np.rint(h)
+    return (d * d).sum(axis=1)
+
+
+E_OUT = 99          # rank standing for "not within tolerance"
+
+
+def owner_table(errs, tol, rel=1e-6):
+    """errs (ngrains, npeaks) squared errors.  Per peak: dense rank of every grain's error among the errors inside the
+    tolerance (E_OUT = outside), the expected owner (index of the strictly smallest error inside the tolerance, -1 = none)
+    and `blur`: the order cannot be told apart from binary64 noise (an error within rel of tol^2, or two errors inside
+    the tolerance within rel of each other) - such a peak is not judged in this pass."""
+    errs = np.asarray(errs, float)
+    ng, n = errs.shape
+    tolsq = tol * tol
+    inside = errs < tolsq
+    blur = (np.abs(errs - tolsq) <= rel * tolsq).any(axis=0)
+    ranks = np.full((ng, n), E_OUT, int)
+    owner = np.full(n, -1, int)
+    for k in np.nonzero(inside.any(axis=0))[0]:
+        gs = np.nonzero(inside[:, k])[0]
+        es = errs[gs, k]
+        o = np.argsort(es, kind="stable")
+        for r, j in enumerate(o):
+            ranks[gs[j], k] = r
+            if r > 0 and es[j] - es[o[r - 1]] <= rel * es[j] + 1e-12:
+                blur[k] = True
+        owner[k] = gs[o[0]]
+    return ranks, owner, blur
 
 
 def random_rotation(rng):
@@ -84,13 +119,37 @@ def make_pars(rng, k):
     return p
 
 
-def simulate(rng, transform, unitcell_mod, pars, ngrains, strain=5e-3, tmax=500.0):
-    """returns grains (ubi_true, t_true), peak table dict(sc, fc, omega, grain, h, k, l)"""
+def axis_rotation(ax, angle):
+    ax = np.asarray(ax, float) / np.linalg.norm(ax)
+    K = np.array([[0, -ax[2], ax[1]], [ax[2], 0, -ax[0]], [-ax[1], ax[0], 0]])
+    return np.eye(3) + np.sin(angle) * K + (1 - np.cos(angle)) * K @ K
+
+
+def relation(rng, kind):
+    """crystal-frame misorientation M of a grain related to a parent (U_child = U_parent M) and its offset from the
+    parent: 'subgrain' = 6..20 mrad about a random axis, 'twin' = fcc sigma-3 (60 degrees about a <111>) followed by
+    3..12 mrad about a random axis (an exact twin at the same place ties exactly on a third of the reflections)"""
+    ax = rng.normal(size=3)
+    if kind == "twin":
+        t111 = np.array([1.0, 1.0, 1.0]) * rng.choice([-1.0, 1.0], size=3)
+        M = axis_rotation(t111, np.pi / 3) @ axis_rotation(ax, rng.uniform(0.003, 0.012))
+    else:
+        M = axis_rotation(ax, rng.uniform(0.006, 0.020))
+    d = rng.normal(size=3)
+    d *= rng.uniform(5.0, 80.0) / np.linalg.norm(d)
+    return M, d
+
+
+def simulate(rng, transform, unitcell_mod, pars, ngrains, strain=5e-3, tmax=500.0, related=None, rng2=None):
+    """returns grains (ubi_true, t_true), peak table dict(sc, fc, omega, grain, h, k, l).
+    related = {child: (parent, kind)}: the child's orientation is the parent's times relation(rng2, kind), its position
+    the parent's plus 5..80 um (kept within +-tmax), its strain its own."""
     uc = unitcell_mod.unitcell([pars["cell__a"], pars["cell__b"], pars["cell__c"], pars["cell_alpha"], pars["cell_beta"],
                                 pars["cell_gamma"]], pars["cell_lattice_[P,A,B,C,I,F,R]"])
     hkls = np.array([h for (_, h) in uc.gethkls(0.85)], float)
     grains = []
     rows = []
+    Us = []
     det = {k: pars[k] for k in ("y_center", "y_size", "tilt_y", "z_center", "z_size", "tilt_z", "tilt_x", "distance",
                                 "o11", "o12", "o21", "o22")}
     for g in range(ngrains):
@@ -100,6 +159,14 @@ def simulate(rng, transform, unitcell_mod, pars, ngrains, strain=5e-3, tmax=500.
         ub = U @ np.linalg.inv(S) @ uc.B
         ubi = np.linalg.inv(ub)
         t = rng.uniform(-tmax, tmax, size=3)
+        if related and g in related:
+            parent, kind = related[g]
+            M, d = relation(rng2, kind)
+            U = Us[parent] @ M
+            ub = U @ np.linalg.inv(S) @ uc.B
+            ubi = np.linalg.inv(ub)
+            t = np.clip(grains[parent][1] + d, -tmax, tmax)
+        Us.append(U)
         gv = (ub @ hkls.T)
         tth, (eta1, eta2), (om1, om2) = transform.uncompute_g_vectors(gv, pars["wavelength"], pars["wedge"], pars["chi"])
         for eta, om in ((eta1, om1), (eta2, om2)):
